@@ -609,6 +609,12 @@ func cmdCheck(args []string) {
 }
 
 func replayMatches(expect, got string) bool {
+	if strings.HasPrefix(expect, "frozen: ") {
+		// a store into the shared (frozen) region has no native symptom; the counter-example counts
+		// when the same input runs natively along a complete path (no assumption or replay mismatch),
+		// i.e. the real code does execute the operation on which the engine saw the store
+		return strings.HasPrefix(got, "ok")
+	}
 	if strings.HasPrefix(expect, "assert: ") {
 		return got == expect
 	}
